@@ -134,8 +134,11 @@ async def run_case(case):
                 await task
             except BaseException:  # pylint: disable=broad-except
                 pass
-        bad_log = [r for r in env.log.records if r[1] in ("ERROR", "CRITICAL") and "ValueError: pv" not in r[2]
-                   and "pv" not in r[2]]
+        all_err = [r for r in env.log.records if r[1] in ("ERROR", "CRITICAL")]
+        if case.get("debug_log"):
+            errors += [f"debug {r[0]}: {r[2][:300]}" for r in all_err]
+        # the scenario's own `raise ValueError("pv")` is logged by pyscript; anything else is unexpected
+        bad_log = [r for r in all_err if "ValueError: pv" not in r[2]]
         errors += [f"log {r[0]}: {r[2][:200]}" for r in bad_log[:5]]
     return {"seq": list(rec.seq), "final": final, "errors": errors}
 
